@@ -737,6 +737,15 @@ theorem objectVal_map_order_immaterial_generated (ord ord' : List (String × Val
     (hd : NormDistinct norm attrs) : ObjectVal ord norm attrs = ObjectVal ord' norm attrs := by
   rw [ObjectVal_order_immaterial ord ho norm attrs hd, ObjectVal_order_immaterial ord' ho' norm attrs hd]
 
+/-- Go's map order is immaterial to `MapVal` too — value, element type and the inconsistent-types panic — when no two
+keys collide after normalisation (element types that are representable types); `ObjectVal_order_counterexample` in
+`Lemmas/ConsFnsTie.lean` has the colliding-keys witness for `MapVal` as well -/
+theorem mapVal_map_order_immaterial_generated (ord ord' : List (String × Value) → List (String × Value))
+    (ho : ConsOrder ord) (ho' : ConsOrder ord') (norm : String → String) (vals : List (String × Value))
+    (hd : NormDistinct norm vals) (hw : ∀ kv ∈ vals, kv.2.ty.wf = true) :
+    ConsGo.cls (MapVal ord norm vals) = ConsGo.cls (MapVal ord' norm vals) :=
+  MapVal_order_immaterial ord ord' ho ho' norm vals hd hw
+
 /-- … the full statement (for all attribute maps) is FALSE of the code: kept as a `def`, with the witness (the
 recorded finding `constructor-key-normalization-collision`: two names with one normal form) -/
 def ObjectValOrderImmaterial : Prop :=
